@@ -70,6 +70,8 @@ def units_for(prop, reg, table):
 
 def run_unit(job):
     kind, qual, cls, prop, timeout_ms, extra = job
+    if os.environ.get("PYVC_TEST_KILL_UNIT") == qual:       # self-test of the driver: this unit's worker dies abruptly
+        os._exit(17)
     table, reg = load_all()
     from pyvc import verify
     try:
@@ -93,6 +95,43 @@ def run_unit(job):
              "unsupported": None, "vacuous": False,
              "error": "%s: %s\n%s" % (type(e).__name__, e, traceback.format_exc()[-1200:])}
     return r
+
+
+def run_jobs(jobs, nproc):
+    """Units in parallel.  A worker process that dies (solver crash, OOM) must never hang the check or lose a unit silently:
+    its units are retried with fewer workers and, failing that, reported as checker errors (exit 3)."""
+    from concurrent.futures import ProcessPoolExecutor, as_completed
+    ctx = mp.get_context("fork")
+    results = [None] * len(jobs)
+    pending = list(range(len(jobs)))
+    deaths = 0
+    with ProcessPoolExecutor(max_workers=max(1, nproc), mp_context=ctx) as ex:
+        futs = {ex.submit(run_unit, jobs[i]): i for i in pending}
+        for f in as_completed(futs):
+            try:
+                results[futs[f]] = f.result()
+            except Exception:       # BrokenProcessPool: every unit still in flight is lost with the dead worker
+                deaths += 1
+    pending = [i for i in pending if results[i] is None]
+    # units lost to a dying worker: one fresh single-worker pool per unit, so that a unit that crashes its process
+    # again is the only one reported
+    for i in list(pending):
+        for _ in range(2):
+            with ProcessPoolExecutor(max_workers=1, mp_context=ctx) as ex:
+                try:
+                    results[i] = ex.submit(run_unit, jobs[i]).result()
+                except Exception:
+                    pass
+            if results[i] is not None:
+                break
+    pending = [i for i in pending if results[i] is None]
+    for i in pending:
+        kind, qual, cls = jobs[i][0], jobs[i][1], jobs[i][2]
+        results[i] = {"unit": qual, "qual": qual, "cls": cls, "kind": kind, "obligations": [], "unsupported": None,
+                      "vacuous": False, "error": "the worker process verifying this unit died repeatedly (solver crash or out of memory)"}
+    if deaths:
+        print("note: %d unit result(s) were lost to dying worker processes and retried" % deaths)
+    return results
 
 
 def scan_assumptions():
@@ -152,6 +191,7 @@ def main(argv=None):
     t0 = time.time()
     timeout_ms = 10000 if tier == "quick" else 60000
     os.environ["PYVC_TIMEOUT_MS"] = str(timeout_ms)
+    os.environ["PYVC_TIER"] = tier          # the native bounded sweeps explore 5x more programs in the thorough tier
     table, reg = load_all()
     units = units_for(prop, reg, table)
     if only:
@@ -160,9 +200,7 @@ def main(argv=None):
     results = []
     nproc = min(16, max(1, len(jobs)))
     if jobs:
-        ctx = mp.get_context("fork")
-        with ctx.Pool(nproc) as pool:
-            results = pool.map(run_unit, jobs, chunksize=1)
+        results = run_jobs(jobs, nproc)
     from pyvc import report
     status = report.finish(prop, tier, seed, results, reg, table, time.time() - t0, timeout_ms)
     if record and status == 0:
